@@ -30,7 +30,7 @@ REQUIRED = ["kind.dynamic", "kind.static", "kind.lanelet", "kind.network", "kind
             "op.trajectory.append_state", "op.cycle_elements=", "op.element-edit", "op.time_offset=", "history-model-checked",
             "op.add_lanelet-deferred", "op.remove_lanelet-deferred", "op.lanelet.translate_rotate",
             "network.built-without-index", "op.merge.disjoint", "op.merge.new-then-duplicate", "op.merge.duplicate-first",
-            "op.lanelet.convert_to_2d"]
+            "op.lanelet.convert_to_2d", "static.move-creeping"]
 EXHAUSTIVE = {"quick": "per object kind: all mutator sequences of length <= 2 (each step followed by the full query battery)",
               "thorough": "per object kind: all mutator sequences of length <= 3"}
 ASSUMPTIONS = ["direct assignment to vertices or shape parameters is not in the statement's mutator list",
@@ -233,10 +233,16 @@ def run(ctx):
         G = Gen(rng)
         ob = StaticObstacle(3, ObstacleType.PARKED_VEHICLE, rng.choice([Rectangle(4.0, 2.0), Circle(1.5),
                                                                         G.polygon(at_origin=True)]),
-                            st.InitialState(time_step=0, position=np.array([1.0, 2.0]), orientation=0.4))
+                            st.InitialState(time_step=0, position=np.array(rng.choice([[1.0, 2.0], [8396.0, 2310.0],
+                                                                                       [-654321.5, 5400321.25]])),
+                                            orientation=0.4))
         ob.occupancy_at_time(0)
         for k in range(n):
-            ob.translate_rotate(np.array([rng.uniform(-9, 9), rng.uniform(-9, 9)]), rng.choice([0.7, -2.0, 0.01]))
+            # large moves and creeping ones (centimetres, far away from the origin these are tiny RELATIVE changes)
+            tr_, an_ = rng.choice([((rng.uniform(-9, 9), rng.uniform(-9, 9)), rng.choice([0.7, -2.0, 0.01])),
+                                   ((0.05, 0.02), 0.0), ((0.002, -0.001), 0.0), ((0.0, 0.0), 1e-4)])
+            ob.translate_rotate(np.array(tr_), an_)
+            ctx.feature("static.move-" + ("large" if abs(tr_[0]) > 0.1 or an_ > 0.001 or an_ < 0 else "creeping"))
             ctx.evaluation()
             fresh = StaticObstacle(3, ob.obstacle_type, ob.obstacle_shape, ob.initial_state)
             if not same_occ(occ_desc(ob.occupancy_at_time(5)), occ_desc(fresh.occupancy_at_time(5))):
@@ -504,7 +510,7 @@ def run(ctx):
             run_cycle(rng, seq)
         elif kind == "static":
             seq = ["translate_rotate"] * 3
-            run_static(rng, 3)
+            run_static(rng, 6)
         else:
             seq = ["translate_rotate"] * 3
             run_lanelet(rng, 3)
